@@ -17,13 +17,14 @@ use schemars::JsonSchema;
 use thiserror::Error;
 
 use std::borrow::Cow;
+#[cfg(not(feature = "verif-hooks"))]
+use std::collections::{HashMap, HashSet};
+use std::ops::Deref;
+
 #[cfg(feature = "verif-hooks")]
 use crate::verif_hooks::SMap as HashMap;
 #[cfg(feature = "verif-hooks")]
 use crate::verif_hooks::VecSet as HashSet;
-#[cfg(not(feature = "verif-hooks"))]
-use std::collections::{HashMap, HashSet};
-use std::ops::Deref;
 
 #[derive(Debug, Error)]
 pub enum RuleCoreError {
